@@ -181,6 +181,12 @@ def main():
             one_case(run, reqs, spec, op, "td:grid")
         flush(run, drv, reqs)
 
+    # ---- 4. extended domain (oracle only): repeat / repeat_interleave / gather / masked_select / stack / cat (+ out=)
+    for i in range(700 if quick else 8000):
+        kind, specs, args = L.gen_ext(rng)
+        run.case(("ext", kind, str(args), L.spec_sx(specs[0]), len(specs)))
+        L.oracle_ext(run, kind, specs, args)
+
     for s in [("permute", (1, 0)), ("flatten", 0, -1), ("splitlist", (1, 2), 1)]:
         spec = L.node((2, 3), ("a", None), [("x0", L.leaf((2, 3, 2))), ("n", L.node((2, 3, 2), None, [("y0", L.leaf((2, 3, 2)))]))])
         if s[0] == "permute":
